@@ -138,6 +138,9 @@ func GenPlan(t *rapid.T, profile string, k Knobs) *Plan {
 		}
 		if k.Promote {
 			in.Promote = rapid.SampledFrom([]int{0, 1, 1, 2}).Draw(t, "promote")
+			if in.Promote != 0 {
+				in.PromoteLinger = rapid.SampledFrom([]time.Duration{0, 0, 0, time.Millisecond, h / 2, 2 * time.Second}).Draw(t, "promote_linger")
+			}
 		}
 		if k.DemoteDur && !in.Monitored && rapid.IntRange(0, 3).Draw(t, "dd_on") == 0 {
 			in.DemoteDur = rapid.SampledFrom([]time.Duration{time.Millisecond, 50 * time.Millisecond, 2 * time.Second}).Draw(t, "demote_dur")
@@ -240,7 +243,13 @@ func GenPlan(t *rapid.T, profile string, k Knobs) *Plan {
 				if cur >= p.Horizon {
 					break
 				}
-				p.Timeline = append(p.Timeline, Action{At: cur, Kind: ActStart, Inst: i, NewObject: k.NewObjects && rapid.Bool().Draw(t, "new_object")})
+				ra := Action{At: cur, Kind: ActStart, Inst: i, NewObject: k.NewObjects && rapid.Bool().Draw(t, "new_object")}
+				if !ra.NewObject && !backToBack && sa.Kind != ActCancelCtx && gapMode <= 1 && rapid.Bool().Draw(t, "overlap") {
+					// the restart does not wait for the stop call to return (it is issued by another goroutine of the
+					// application): with a callback or a store call that takes a while to wind down, the two overlap
+					ra.Overlap = true
+				}
+				p.Timeline = append(p.Timeline, ra)
 			}
 		}
 	}
